@@ -21,14 +21,14 @@ CLAIMED.update({
  "C05": ("type-level recomputation of the marshal and unmarshal field tables (encoding/json field resolution re-implemented over go/types) and comparison with the Schema struct; guard and post-dominance rules on the splice helpers",
          "Agreement of the writer's and the reader's keyword tables for every field, preservation of significant empty containers, exact boolean folding, unconditional purge of known names from Extra, integer keyword shadowing, const-null handling, exact JSON-name set, keyword names letter for letter those of the specifications, 32-bit range of integer keywords exact at both ends, boolean documents overwrite the receiver. Not byte identity or value fidelity.", "4/C05"),
  "C17": ("type-level registry completeness; dominating guards in the pointer field lookup; constant tables of the escape replacers; guard analysis of the pointer walker (checked assertion, validity tests, both index bounds)",
-         "Every schema-bearing field is registered and addressable, ambiguous JSON names are special-cased before the last-writer-wins map, escape tables are RFC 6901's, failed lookups become errors, exactly one leading slash is removed before the pointer is split, no error of the resolution code is overwritten or dropped before it is looked at, no error variable is returned where it is known to be nil. Not which subschema a concrete pointer selects.", "4/C17"),
+         "Every schema-bearing field is registered and addressable, ambiguous JSON names are special-cased before the last-writer-wins map, escape tables are RFC 6901's, failed lookups become errors, exactly one leading slash is removed before the pointer is split, only the empty pointer is the whole document, index rules apply to arrays only, no error of the resolution code is overwritten or dropped before it is looked at, no error variable is returned where it is known to be nil. Not which subschema a concrete pointer selects.", "4/C17"),
  "C20": ("type-level registry completeness; sibling agreement on the three shapes across traversals; control-dependence of the clone write-backs; allocation-site freshness of cloned containers and elements",
          "The clone loop is total over schema-bearing fields, writes back only fresh containers filled with recursive clones, a nil container is produced only for a nil original, and the structure check rejects a shared Schema object. Not observed equality of marshaled output.", "4/C20"),
 })
 
 CLAIMED.update({
  "C03": ("dominance of the two cache insertions over the descent into references; dominating miss-guards and key identity at the Loader call; must-pass-through of the side-table merge on every path from a foreign root to its use as a key; provenance of successful returns, of the lookup URI and of stored targets",
-         "Bookkeeping shape of reference resolution for every topology: cache-before-recursion under both URIs, loader only on miss, foreign tables merged, no fallback target, base of the enclosing resource, per-occurrence resolution, anchors scoped to their base, BaseURI used as the root's base unless empty, no resolution error dropped. Not RFC 3986 itself nor the target of a concrete topology.", "4/C03"),
+         "Bookkeeping shape of reference resolution for every topology: cache-before-recursion under both URIs, loader only on miss, foreign tables merged, no fallback target, base of the enclosing resource, per-occurrence resolution, anchors scoped to their base, BaseURI parsed verbatim and used as the root's base unless empty, first anchor of a name wins, no resolution error dropped. Not RFC 3986 itself nor the target of a concrete topology.", "4/C03"),
  "C06": ("push/pop discipline of the evaluation stack by dominance and defer analysis; write-effect analysis of the closure of Validate (no state survives a call); exclusive-outcome and guard analysis of the lexical/dynamic split; shape of the outermost-first search",
          "The dynamic scope is a per-call stack pushed once and popped on every exit, nothing else is mutable or shared, resolution records lexical xor dynamic behaviour, and the search is outermost-first through base resources over the whole stack. Not the target selected for a concrete topology.", "4/C06"),
 })
@@ -65,7 +65,7 @@ CLAIMED.update({
 
 CLAIMED.update({
  "C10": ("inventory of explicit panics and assertions with reflect-kind dataflow at each; kind-precondition analysis of every partial reflect operation with call-site propagation; iterator-protocol reachability; nil-guard dominance for callback and (nil, nil) results; strongly connected components of the static call graph against a table of terminating shapes, each with its own checked obligation",
-         "Panic sites unreachable for JSON-shaped inputs or discharged by named rules, partial reflect operations guarded, iterators obey the yield protocol, callback and optional results nil-tested, every recursive component of a known terminating shape with its seen-set / cache / tree-check obligation, element-type walks bounded by a visited set, prefix slices guarded by a length comparison, constant-index reads of strings and slices guarded by a length test, partial helpers checked at every call site (closures called through variables included). Not the absence of all run-time panics.", "4/C10"),
+         "Panic sites unreachable for JSON-shaped inputs or discharged by named rules, partial reflect operations guarded, iterators obey the yield protocol, callback and optional results nil-tested, every recursive component of a known terminating shape with its seen-set / cache / tree-check obligation, element-type walks bounded by a visited set, prefix slices guarded by a length comparison, constant-index reads of strings and slices guarded by a length test, partial helpers checked at every call site (closures called through variables included), Value.Bytes only on byte slices, non-finite bounds refused by Resolve before SetFloat64's result is used, the Loader field never nil when called. Not the absence of all run-time panics.", "4/C10"),
 })
 
 NOT_YET = "static clauses designed in DESIGN.md section 4 but the rule is not built yet in this session"
